@@ -377,7 +377,10 @@ class BacktestingDispatcher(EventDispatcher):
     async def _dispatch_events(self, dt: datetime.datetime):
         # Pop events, push them into the task pool, and wait those to finish executing.
         self._last_dt = dt
-        for source, evnt in self._event_mux.pop_while(dt):
+        # Get all the events up front. If the task pool is full, handlers executing while we wait for room may generate
+        # new events for dt, and those should be dispatched in the next round, after all the events that gave origin to
+        # them were processed.
+        for source, evnt in list(self._event_mux.pop_while(dt)):
             await self._handlers_task_pool.push(
                 self._dispatch_event(EventDispatch(event=evnt, handlers=self._event_handlers.get(source, [])))
             )
